@@ -224,6 +224,7 @@ def subject(case):
         for label, main in arrangements(case['schema'], rng, d):
             try:
                 s = cls(main)
+                fresh_copy = _copy.copy(s) if label == 'original' else None     # copied before any use
                 out[label] = observe(s, case['docs'])
                 if label == 'original':
                     def rebuilt():
@@ -237,7 +238,7 @@ def subject(case):
                         s3.add_schema('<xs:schema xmlns:xs="http://www.w3.org/2001/XMLSchema" targetNamespace="urn:c09:other">'
                                       '<xs:element name="other" type="xs:string"/></xs:schema>', namespace='urn:c09:other', build=True)
                         return s3
-                    for lab2, fn in (('rebuilt', rebuilt), ('rebuilt_after_add', after_add), ('copy', lambda: _copy.copy(s)),
+                    for lab2, fn in (('rebuilt', rebuilt), ('rebuilt_after_add', after_add), ('copy', lambda: _copy.copy(s)), ('copy_fresh', lambda: fresh_copy),
                                      ('pickle', lambda: pickle.loads(pickle.dumps(s)))):
                         try:
                             out[lab2] = observe(fn(), case['docs'])
@@ -291,7 +292,9 @@ def evaluate(ctx, cases):
                 continue
             ctx.count(('arr', c['seed'], c['version'], label), nontrivial=True)
             ctx.dist('arrangement', label)
-            if 'exc' in r:
+            if 'exc' in r and label == 'copy_fresh' and 'XMLSchemaNotBuiltError' in r['exc']:
+                ctx.known_finding('F-C09a')
+            elif 'exc' in r:
                 problems.append('%s: %s' % (label, r['exc']))
             elif r['globals'] != ref['globals']:
                 diff = {k: (sorted(set(v) ^ set(ref['globals'][k])) if isinstance(v, list) else v) for k, v in r['globals'].items() if v != ref['globals'][k]}
